@@ -91,6 +91,8 @@ def check(v, tier):
     akeys = list(alone_src)
     ares = dict(zip(akeys, xp.expand_all(binary, [alone_src[k] for k in akeys])))
     res = xp.expand_all(binary, inputs)
+    from .. import realmacro
+    realmacro.conformance(v, binary, [alone_src[k] for k in akeys] + inputs[::7], [ares[k] for k in akeys] + res[::7], limit=6000 if tier == 'quick' else 40000)
     states = set()
     nontriv = 0
     classes = set()
